@@ -936,6 +936,10 @@ impl Drop for World {
     }
 }
 
+pub fn install_seq_hooks_lazy() {
+    install_seq_hooks();
+}
+
 /// The hook table installed for E1/E2 processes: only `spin` (decline to sleep) and `journal_pos`.
 pub fn install_seq_hooks() {
     fn nop_point(_: &'static str) {}
